@@ -1,0 +1,8 @@
+//go:build !verif
+
+package concurrent
+
+// Without the `verif` build tag the schedule hook of Foreach does nothing.
+func verifSchedule[E any](collection []E, f func(E)) ([]E, func(E)) {
+	return collection, f
+}
